@@ -87,6 +87,18 @@ Qed.
 Lemma value_only g s p o : NoDup g -> only g s p o -> g_value g s p = Some o.
 Proof. intros Hn H. unfold g_value. now rewrite (objects_only _ _ _ _ Hn H). Qed.
 
+Lemma value_only_nd g s p o : only g s p o -> g_value g s p = Some o.
+Proof.
+  intros [Hin Hu]. unfold g_value, g_objects.
+  destruct (filter (matches (Some s, Some p, None)) g) as [|[[a b] c] r] eqn:E.
+  - exfalso. assert (H : In (s, p, o) (filter (matches (Some s, Some p, None)) g)).
+    { apply filter_In. split; auto. now apply matches_sp. }
+    rewrite E in H. destruct H.
+  - assert (H : In (a, b, c) (filter (matches (Some s, Some p, None)) g)) by (rewrite E; now left).
+    apply filter_In in H. destruct H as [H Hm]. apply matches_sp in Hm.
+    unfold subj, pred in Hm; simpl in Hm. destruct Hm; subst. simpl. now rewrite (Hu c H).
+Qed.
+
 Lemma objects_none g s p : (forall o, ~ In (s, p, o) g) -> g_objects g s p = [].
 Proof.
   intros H. unfold g_objects.
@@ -124,13 +136,34 @@ Proof.
   intros [H|[H|H]]; try (subst t; reflexivity). auto.
 Qed.
 
-(* the graph's first/rest triples are exactly the chain of [l] (to nil) *)
-Definition Rep (g : graph) (l : list (term * term)) : Prop :=
-  NoDup (cells l) /\ ~ In NIL (cells l) /\
-  forall t, is_fr t = true -> (In t g <-> In t (chainT l NIL)).
-
 Lemma cells_app l1 l2 : cells (l1 ++ l2) = cells l1 ++ cells l2.
 Proof. apply map_app. Qed.
+
+(* Everything from here to the end of the section is relative to a set [fz] of
+   "frozen" subjects - subjects that are never a cell of the collection under
+   test.  Nothing is assumed about the triples with a frozen subject: they may
+   form other collections, lead into this one, be members of it.  rdf:nil and
+   the head are not frozen. *)
+Section Frame.
+Variable fz : term -> bool.
+Hypothesis fz_nil : fz NIL = false.
+Hypothesis fz_head : fz HEAD = false.
+Hint Resolve fz_nil fz_head : core.
+
+Definition notfz (l : list (term * term)) : Prop := forall c, In c (cells l) -> fz c = false.
+
+(* the graph's first/rest triples with a non-frozen subject are exactly the
+   chain of [l] (to nil) *)
+Definition Rep (g : graph) (l : list (term * term)) : Prop :=
+  NoDup (cells l) /\ ~ In NIL (cells l) /\ notfz l /\
+  forall t, is_fr t = true -> fz (subj t) = false -> (In t g <-> In t (chainT l NIL)).
+
+Lemma notfz_app l1 l2 : notfz (l1 ++ l2) <-> notfz l1 /\ notfz l2.
+Proof.
+  unfold notfz. split.
+  - intros H. split; intros c Hc; apply H; rewrite cells_app, in_app_iff; auto.
+  - intros [H1 H2] c Hc. rewrite cells_app, in_app_iff in Hc. destruct Hc; auto.
+Qed.
 
 Lemma NoDup_app_parts (A : Type) (l1 l2 : list A) :
   NoDup (l1 ++ l2) -> NoDup l1 /\ NoDup l2 /\ forall x, In x l1 -> ~ In x l2.
@@ -161,33 +194,35 @@ Proof.
   - intros [[-> ->]|[-> ->]]; right; [now left|right; now left].
 Qed.
 
+Lemma cell_mid l1 c x l2 : In c (cells (l1 ++ (c, x) :: l2)).
+Proof. rewrite cells_app, in_app_iff. right. now left. Qed.
+
 Lemma Rep_only_first g l1 c x l2 :
   Rep g (l1 ++ (c, x) :: l2) -> only g c FIRST x.
 Proof.
-  intros [Hn [_ Hi]]. split.
-  - apply Hi; [reflexivity|]. apply chain_at; auto.
-  - intros o' H. apply Hi in H; [|reflexivity]. apply chain_at in H; auto.
+  intros [Hn [_ [Hz Hi]]]. assert (Hc : fz c = false) by (apply Hz, cell_mid). split.
+  - apply Hi; [reflexivity|exact Hc|]. apply chain_at; auto.
+  - intros o' H. apply Hi in H; [|reflexivity|exact Hc]. apply chain_at in H; auto.
     destruct H as [[_ ->]|[H _]]; [auto|discriminate].
 Qed.
 Lemma Rep_only_rest g l1 c x l2 :
   Rep g (l1 ++ (c, x) :: l2) -> only g c REST (hd_cell l2 NIL).
 Proof.
-  intros [Hn [_ Hi]]. split.
-  - apply Hi; [reflexivity|]. apply chain_at; auto.
-  - intros o' H. apply Hi in H; [|reflexivity]. apply chain_at in H; auto.
+  intros [Hn [_ [Hz Hi]]]. assert (Hc : fz c = false) by (apply Hz, cell_mid). split.
+  - apply Hi; [reflexivity|exact Hc|]. apply chain_at; auto.
+  - intros o' H. apply Hi in H; [|reflexivity|exact Hc]. apply chain_at in H; auto.
     destruct H as [[H _]|[_ ->]]; [discriminate|auto].
 Qed.
 
+(* a non-frozen node that is no cell has no first/rest triple *)
 Lemma Rep_no_subject g l s p o :
-  Rep g l -> ~ In s (cells l) -> (p = FIRST \/ p = REST) -> ~ In (s, p, o) g.
+  Rep g l -> ~ In s (cells l) -> fz s = false -> (p = FIRST \/ p = REST) -> ~ In (s, p, o) g.
 Proof.
-  intros [_ [_ Hi]] Hs Hp Hin. apply Hi in Hin.
+  intros [_ [_ [_ Hi]]] Hs Hf Hp Hin. apply Hi in Hin; [| |exact Hf].
   - apply In_chainT_subj in Hin. auto.
   - unfold is_fr, pred; simpl. destruct Hp; subst; reflexivity.
 Qed.
 
-Lemma cell_mid l1 c x l2 : In c (cells (l1 ++ (c, x) :: l2)).
-Proof. rewrite cells_app, in_app_iff. right. now left. Qed.
 
 (* ------------------------------------------------------------------ *)
 (* Reads on a represented list                                         *)
@@ -222,9 +257,9 @@ Proof.
   apply (IH (l0 ++ [(c, x)])); auto. rewrite <- app_assoc. exact HR.
 Qed.
 
-Lemma Rep_value_none g l s p : Rep g l -> ~ In s (cells l) -> (p = FIRST \/ p = REST) ->
+Lemma Rep_value_none g l s p : Rep g l -> ~ In s (cells l) -> fz s = false -> (p = FIRST \/ p = REST) ->
   g_value g s p = None.
-Proof. intros HR Hs Hp. apply value_none. intros o. apply (Rep_no_subject _ _ _ _ o HR Hs Hp). Qed.
+Proof. intros HR Hs Hf Hp. apply value_none. intros o. apply (Rep_no_subject _ _ _ _ o HR Hs Hf Hp). Qed.
 
 Lemma container_beyond g l : NoDup g -> Rep g l -> forall k, (length l < k)%nat ->
   container_n g (hd_cell l NIL) k = None.
@@ -235,8 +270,8 @@ Proof.
   simpl. rewrite (Rep_value_none _ _ NIL REST HR); auto. apply HR.
 Qed.
 
-Lemma container_empty g c k : Rep g [] -> container_n g c (S k) = None.
-Proof. intros HR. simpl. rewrite (Rep_value_none _ _ c REST HR); auto. Qed.
+Lemma container_empty g c k : Rep g [] -> fz c = false -> container_n g c (S k) = None.
+Proof. intros HR Hc. simpl. rewrite (Rep_value_none _ _ c REST HR); auto. Qed.
 
 Lemma memb_none_chain (chain : list (option term)) :
   (forall o, In o chain -> o <> None) -> memb (opt_eqb N.eqb) None chain = false.
@@ -275,7 +310,7 @@ Proof.
     rewrite (big_truthy _ c Hb) by (now left).
     rewrite (value_only _ _ _ _ Hn (Rep_only_rest _ _ _ _ _ HR)).
     rewrite (value_only _ _ _ _ Hn (Rep_only_first _ _ _ _ _ HR)).
-    destruct HR as [HR1 [HR2 HR3]].
+    destruct HR as [HR1 [HR2 [HRz HR3]]].
     destruct (next_fresh _ _ _ _ HR1 HR2) as [F1 F2].
     assert (Hm : memb (opt_eqb N.eqb) (Some (hd_cell r NIL)) chain = false).
     { apply (memb_false _ (opt_eqb_spec _ N.eqb_spec)). intros Hin.
@@ -284,7 +319,7 @@ Proof.
     rewrite Hm.
     rewrite (IH (l1 ++ [(c, x)])).
     + reflexivity.
-    + rewrite <- app_assoc. simpl. split; [|split]; auto.
+    + rewrite <- app_assoc. simpl. split; [|split; [|split]]; auto.
     + intros c' Hc'. apply Hb. now right.
     + simpl in Hf. lia.
     + intros o [<-|Ho].
@@ -301,12 +336,13 @@ Qed.
 
 Lemma Rep_length g l : Rep g l -> (length l <= length g)%nat.
 Proof.
-  intros [Hn [_ Hi]].
+  intros [Hn [_ [Hz Hi]]].
   rewrite <- (map_length (fun cx : term * term => (fst cx, FIRST, snd cx)) l).
   apply NoDup_incl_length.
   - apply (NoDup_map_inv subj). rewrite map_map. simpl. exact Hn.
   - intros t Ht. apply in_map_iff in Ht. destruct Ht as [[c x] [<- Hcx]]. simpl.
-    apply Hi; [reflexivity|]. now apply In_chainT_first.
+    apply Hi; [reflexivity| |now apply In_chainT_first].
+    apply Hz. unfold cells. apply in_map_iff. exists (c, x). auto.
 Qed.
 
 (* the collection whose uri is HEAD holds the list [l] *)
@@ -404,7 +440,7 @@ Proof.
       { apply N.eqb_neq. intros ->. destruct HR as [_ [HR2 _]]. apply HR2.
         rewrite cells_app, in_app_iff. right. simpl. right. now left. }
       cbn [hd_cell]. rewrite Hc2.
-      destruct HR as [HR1 [HR2 HR3]].
+      destruct HR as [HR1 [HR2 [HRz HR3]]].
       destruct (next_fresh _ _ _ _ HR1 HR2) as [N1 N2]. cbn [hd_cell] in N1, N2.
       assert (Hm : memb N.eqb c2 seen = false).
       { apply (memb_false _ N.eqb_spec). intros Hin. destruct (Hs _ Hin) as [H|H]; auto. }
@@ -445,11 +481,11 @@ Ltac fr_solve :=
 Lemma Rep_set g l1 c x l2 v :
   Rep g (l1 ++ (c, x) :: l2) -> Rep (g_set c FIRST v g) (l1 ++ (c, v) :: l2).
 Proof.
-  intros [Hn [Hnil Hi]].
+  intros [Hn [Hnil [Hz Hi]]].
   assert (Ec : cells (l1 ++ (c, v) :: l2) = cells (l1 ++ (c, x) :: l2)) by (now rewrite !cells_app).
-  split; [now rewrite Ec|split; [now rewrite Ec|]].
+  split; [now rewrite Ec|split; [now rewrite Ec|split; [unfold notfz; now rewrite Ec|]]].
   destruct (mid_parts _ _ _ _ Hn) as [P1 P2].
-  intros t Ht. rewrite g_set_In, (Hi t Ht), !chainT_app, !in_app_iff. cbn [chainT hd_cell In].
+  intros t Ht Hf. rewrite g_set_In, (Hi t Ht Hf), !chainT_app, !in_app_iff. cbn [chainT hd_cell In].
   split.
   - intros [->|[[H|[H|[H|H]]] Hne]]; auto.
     + subst t. exfalso. apply Hne. split; reflexivity.
@@ -462,8 +498,8 @@ Qed.
 Lemma Rep_del_only g c x :
   Rep g [(c, x)] -> Rep (g_remove (Some c, None, None) (g_set c REST NIL g)) [].
 Proof.
-  intros [Hn [Hnil Hi]]. split; [constructor|split; [simpl; tauto|]].
-  intros t Ht. rewrite g_remove_s_In, g_set_In, (Hi t Ht). simpl. split; [|tauto].
+  intros [Hn [Hnil [Hz Hi]]]. split; [constructor|split; [simpl; tauto|split; [intros ? []|]]].
+  intros t Ht Hf. rewrite g_remove_s_In, g_set_In, (Hi t Ht Hf). simpl. split; [|tauto].
   intros [[->|[[H|[H|[]]] _]] Hs]; apply Hs; try subst t; reflexivity.
 Qed.
 
@@ -495,15 +531,15 @@ Qed.
 
 (* the two deletion branches differ only in the order of remove and set *)
 Lemma Rep_del_iff g l1 p xp c x l2 t :
-  Rep g (l1 ++ (p, xp) :: (c, x) :: l2) -> is_fr t = true ->
+  Rep g (l1 ++ (p, xp) :: (c, x) :: l2) -> is_fr t = true -> fz (subj t) = false ->
   ((t = (p, REST, hd_cell l2 NIL) \/ (In t g /\ ~ (subj t = p /\ pred t = REST))) /\ subj t <> c
    <-> In t (chainT (l1 ++ (p, xp) :: l2) NIL)) /\
   ((t = (p, REST, hd_cell l2 NIL) \/ ((In t g /\ subj t <> c) /\ ~ (subj t = p /\ pred t = REST)))
    <-> In t (chainT (l1 ++ (p, xp) :: l2) NIL)).
 Proof.
-  intros [Hn [Hnil Hi]] Ht.
+  intros [Hn [Hnil [Hz Hi]]] Ht Hf.
   destruct (pair_parts _ _ _ _ _ _ Hn) as [P1 [P2 [P3 [P4 P5]]]].
-  rewrite (Hi t Ht), !chainT_app, !in_app_iff. cbn [chainT hd_cell In].
+  rewrite (Hi t Ht Hf), !chainT_app, !in_app_iff. cbn [chainT hd_cell In].
   assert (A1 : In t (chainT l1 p) -> subj t <> p /\ subj t <> c).
   { intros H. split; eapply subj_not_in; eauto. }
   assert (A2 : In t (chainT l2 NIL) -> subj t <> p /\ subj t <> c).
@@ -531,25 +567,26 @@ Qed.
 
 Lemma Rep_del_cells g l1 p xp c x l2 :
   Rep g (l1 ++ (p, xp) :: (c, x) :: l2) ->
-  NoDup (cells (l1 ++ (p, xp) :: l2)) /\ ~ In NIL (cells (l1 ++ (p, xp) :: l2)).
+  NoDup (cells (l1 ++ (p, xp) :: l2)) /\ ~ In NIL (cells (l1 ++ (p, xp) :: l2)) /\ notfz (l1 ++ (p, xp) :: l2).
 Proof.
-  intros [Hn [Hnil _]]. destruct (cells_drop l1 p xp c x l2) as [D1 D2]. split; auto.
+  intros [Hn [Hnil [Hz _]]]. destruct (cells_drop l1 p xp c x l2) as [D1 D2]. split; [auto|split; [auto|]].
+  intros y Hy. apply Hz. auto.
 Qed.
 
 Lemma Rep_del_tail g l1 p xp c x l2 :
   Rep g (l1 ++ (p, xp) :: (c, x) :: l2) ->
   Rep (g_remove (Some c, None, None) (g_set p REST (hd_cell l2 NIL) g)) (l1 ++ (p, xp) :: l2).
 Proof.
-  intros HR. destruct (Rep_del_cells _ _ _ _ _ _ _ HR) as [C1 C2]. split; [|split]; auto.
-  intros t Ht. rewrite g_remove_s_In, g_set_In. apply (Rep_del_iff _ _ _ _ _ _ _ _ HR Ht).
+  intros HR. destruct (Rep_del_cells _ _ _ _ _ _ _ HR) as [C1 [C2 C3]]. split; [|split; [|split]]; auto.
+  intros t Ht Hf. rewrite g_remove_s_In, g_set_In. apply (Rep_del_iff _ _ _ _ _ _ _ _ HR Ht Hf).
 Qed.
 
 Lemma Rep_del_middle g l1 p xp c x l2 :
   Rep g (l1 ++ (p, xp) :: (c, x) :: l2) ->
   Rep (g_set p REST (hd_cell l2 NIL) (g_remove (Some c, None, None) g)) (l1 ++ (p, xp) :: l2).
 Proof.
-  intros HR. destruct (Rep_del_cells _ _ _ _ _ _ _ HR) as [C1 C2]. split; [|split]; auto.
-  intros t Ht. rewrite g_set_In, g_remove_s_In. apply (Rep_del_iff _ _ _ _ _ _ _ _ HR Ht).
+  intros HR. destruct (Rep_del_cells _ _ _ _ _ _ _ HR) as [C1 [C2 C3]]. split; [|split; [|split]]; auto.
+  intros t Ht Hf. rewrite g_set_In, g_remove_s_In. apply (Rep_del_iff _ _ _ _ _ _ _ _ HR Ht Hf).
 Qed.
 
 (* del c[0] on a longer list: the second cell's content moves into the head *)
@@ -558,13 +595,14 @@ Lemma Rep_del_head g c x n xn l2 :
   Rep (g_set c REST (hd_cell l2 NIL) (g_set c FIRST xn (g_remove (Some n, None, None) g)))
       ((c, xn) :: l2).
 Proof.
-  intros [Hn [Hnil Hi]].
+  intros [Hn [Hnil [Hz Hi]]].
   destruct (pair_parts [] c x n xn l2 Hn) as [_ [_ [P3 [P4 P5]]]].
   simpl in Hn, Hnil. inversion Hn as [|? ? A1 A2]; subst. inversion A2 as [|? ? B1 B2]; subst.
-  split; [|split].
+  split; [|split; [|split]].
   - simpl. constructor; auto.
   - simpl. tauto.
-  - intros t Ht. rewrite !g_set_In, g_remove_s_In, (Hi t Ht). cbn [chainT hd_cell In].
+  - intros y Hy. apply Hz. simpl in Hy |- *. tauto.
+  - intros t Ht Hf. rewrite !g_set_In, g_remove_s_In, (Hi t Ht Hf). cbn [chainT hd_cell In].
     assert (A : In t (chainT l2 NIL) -> subj t <> c /\ subj t <> n).
     { intros H. split; eapply subj_not_in; eauto. }
     split.
@@ -579,18 +617,46 @@ Proof.
       * destruct (A H). right. split; [|tauto]. right. split; [|tauto]. split; auto 10.
 Qed.
 
+(* ---- the frame: triples with a frozen subject ---- *)
+Definition Frame (g g' : graph) : Prop := forall t, fz (subj t) = true -> (In t g' <-> In t g).
+
+Lemma Frame_refl g : Frame g g.
+Proof. intros t _. tauto. Qed.
+Lemma Frame_trans g1 g2 g3 : Frame g1 g2 -> Frame g2 g3 -> Frame g1 g3.
+Proof. intros A B t Ht. rewrite (B t Ht). apply (A t Ht). Qed.
+Lemma Frame_add t0 g : fz (subj t0) = false -> Frame g (g_add t0 g).
+Proof. intros H t Ht. rewrite g_add_In. split; [intros [->|]; [congruence|auto]|auto]. Qed.
+Lemma matches_subj s p o t : matches (Some s, p, o) t = true -> subj t = s.
+Proof.
+  destruct t as [[a b] c]. unfold subj. simpl. rewrite !andb_true_iff, N.eqb_eq. intros [[E _] _]. auto.
+Qed.
+Lemma Frame_remove s p o g : fz s = false -> Frame g (g_remove (Some s, p, o) g).
+Proof.
+  intros H t Ht. rewrite g_remove_In. split; [tauto|]. intros Hin. split; auto.
+  apply not_true_false. intros Hm. apply matches_subj in Hm. congruence.
+Qed.
+Lemma Frame_set s p o g : fz s = false -> Frame g (g_set s p o g).
+Proof.
+  intros H. unfold g_set. eapply Frame_trans; [apply (Frame_remove s (Some p) None g H)|].
+  apply Frame_add. exact H.
+Qed.
+
 (* ---- append / += : the chain whose last cell has no rdf:rest yet ---- *)
 
 Definition OpenFR (g : graph) (l : list (term * term)) (e : term) : Prop :=
-  (l = [] /\ forall t, is_fr t = true -> ~ In t g) \/
+  (l = [] /\ forall t, is_fr t = true -> fz (subj t) = false -> ~ In t g) \/
   (exists l0 x, l = l0 ++ [(e, x)] /\
-     forall t, is_fr t = true -> (In t g <-> In t (chainT l0 e ++ [(e, FIRST, x)]))).
+     forall t, is_fr t = true -> fz (subj t) = false ->
+               (In t g <-> In t (chainT l0 e ++ [(e, FIRST, x)]))).
 
 Definition Open (g : graph) (l : list (term * term)) (e : term) : Prop :=
-  NoDup (cells l) /\ ~ In NIL (cells l) /\ OpenFR g l e.
+  NoDup (cells l) /\ ~ In NIL (cells l) /\ (notfz l /\ fz e = false) /\ OpenFR g l e.
 
 Definition bounded (l : list (term * term)) (f : N) : Prop :=
   forall c, In c (cells l) -> NIL < c < f.
+
+(* BNode() never returns a frozen node *)
+Definition fresh_ok (f : N) : Prop := forall y, f <= y -> fz y = false.
 
 Lemma hd_cell_ne l a b : l <> [] -> hd_cell l a = hd_cell l b.
 Proof. destruct l as [|[c x] r]; [congruence|auto]. Qed.
@@ -602,76 +668,87 @@ Ltac ors := repeat match goal with H : _ \/ _ |- _ => destruct H end; subst; try
 Ltac nlia := unfold NIL, HEAD in *; simpl in *; lia.
 
 Lemma iadd_step_spec g l e f v :
-  Open g l e -> NoDup g -> bounded l f -> NIL < e < f -> hd_cell l e = HEAD ->
+  Open g l e -> NoDup g -> bounded l f -> NIL < e < f -> hd_cell l e = HEAD -> fresh_ok f ->
   let '(g', e', f') := iadd_step (g, e, f) v in
   Open g' (l ++ [(e', v)]) e' /\ NoDup g' /\ bounded (l ++ [(e', v)]) f' /\ NIL < e' < f'
-  /\ hd_cell (l ++ [(e', v)]) e' = HEAD /\ f <= f'.
+  /\ hd_cell (l ++ [(e', v)]) e' = HEAD /\ f <= f' /\ fresh_ok f' /\ Frame g g'.
 Proof.
-  intros [Hn [Hnil Ho]] Hg Hb He Hh. unfold iadd_step.
+  intros [Hn [Hnil [[Hz Hze] Ho]]] Hg Hb He Hh Hfr. unfold iadd_step.
   destruct Ho as [[-> Ho]|[l0 [x [-> Ho]]]].
   - assert (Hhas : g_has (Some e, Some FIRST, None) g = false).
-    { apply not_true_false. rewrite g_has_sp. intros [o H]. exact (Ho (e, FIRST, o) eq_refl H). }
+    { apply not_true_false. rewrite g_has_sp. intros [o H]. exact (Ho (e, FIRST, o) eq_refl Hze H). }
     rewrite Hhas. simpl app.
-    refine (conj _ (conj _ (conj _ (conj _ (conj _ _))))).
-    + split; [simpl; constructor; [tauto|constructor]|split].
+    refine (conj _ (conj _ (conj _ (conj _ (conj _ (conj _ (conj _ _))))))).
+    + split; [simpl; constructor; [tauto|constructor]|split; [|split]].
       * simpl. intros [E|[]]. rewrite <- E in He. nlia.
-      * right. exists [], v. split; auto. intros t Ht. rewrite g_add_In. simpl.
-        split; [intros [->|H]; [auto|exfalso; exact (Ho t Ht H)]|intros [<-|[]]; auto].
+      * split; [|exact Hze]. intros y [<-|[]]. exact Hze.
+      * right. exists [], v. split; auto. intros t Ht Hft. rewrite g_add_In. simpl.
+        split; [intros [->|H]; [auto|exfalso; exact (Ho t Ht Hft H)]|intros [<-|[]]; auto].
     + now apply g_add_NoDup.
     + intros c [<-|[]]. simpl. nlia.
     + nlia.
     + simpl in *. exact Hh.
     + nlia.
+    + exact Hfr.
+    + now apply Frame_add.
   - assert (Hhas : g_has (Some e, Some FIRST, None) g = true).
-    { rewrite g_has_sp. exists x. apply Ho; [reflexivity|]. apply in_app_iff. right. now left. }
+    { rewrite g_has_sp. exists x. apply Ho; [reflexivity|exact Hze|]. apply in_app_iff. right. now left. }
     rewrite Hhas.
     assert (Hf : ~ In f (cells (l0 ++ [(e, x)]))).
     { intros H. apply Hb in H. nlia. }
-    refine (conj _ (conj _ (conj _ (conj _ (conj _ _))))).
-    + split; [|split].
+    assert (Hzf : fz f = false) by (apply Hfr; lia).
+    refine (conj _ (conj _ (conj _ (conj _ (conj _ (conj _ (conj _ _))))))).
+    + split; [|split; [|split]].
       * rewrite cells_app. simpl. apply NoDup_app_single; auto.
       * rewrite cells_app, in_app_iff. simpl. intros [H|[E|[]]]; [auto|]. rewrite <- E in He. nlia.
-      * right. exists (l0 ++ [(e, x)]), v. split; auto. intros t Ht.
-        rewrite !g_add_In, (Ho t Ht), chainT_app, !in_app_iff. simpl. split; intros Hx; ors.
+      * split; [|exact Hzf]. apply notfz_app. split; auto. intros y [<-|[]]. exact Hzf.
+      * right. exists (l0 ++ [(e, x)]), v. split; auto. intros t Ht Hft.
+        rewrite !g_add_In, (Ho t Ht Hft), chainT_app, !in_app_iff. simpl. split; intros Hx; ors.
     + now apply g_add_NoDup, g_add_NoDup.
     + intros c H. rewrite cells_app, in_app_iff in H. simpl in H.
       destruct H as [H|[<-|[]]]; [apply Hb in H|]; nlia.
     + nlia.
     + rewrite hd_cell_app. simpl. rewrite <- Hh. apply hd_cell_ne. destruct l0; discriminate.
     + nlia.
+    + intros y Hy. apply Hfr. lia.
+    + eapply Frame_trans; apply Frame_add; auto.
 Qed.
 
 Lemma iadd_fold_spec items : forall g l e f,
-  Open g l e -> NoDup g -> bounded l f -> NIL < e < f -> hd_cell l e = HEAD ->
+  Open g l e -> NoDup g -> bounded l f -> NIL < e < f -> hd_cell l e = HEAD -> fresh_ok f ->
   let '(g', e', f') := fold_left iadd_step items (g, e, f) in
   exists l', Open g' l' e' /\ NoDup g' /\ bounded l' f' /\ NIL < e' < f' /\ hd_cell l' e' = HEAD
-             /\ f <= f' /\ map snd l' = map snd l ++ items.
+             /\ f <= f' /\ fresh_ok f' /\ Frame g g' /\ map snd l' = map snd l ++ items.
 Proof.
-  induction items as [|v r IH]; intros g l e f Ho Hg Hb He Hh.
-  - simpl. exists l. rewrite app_nil_r. refine (conj Ho (conj Hg (conj Hb (conj He (conj Hh (conj _ eq_refl)))))). nlia.
+  induction items as [|v r IH]; intros g l e f Ho Hg Hb He Hh Hfr.
+  - simpl. exists l. rewrite app_nil_r.
+    refine (conj Ho (conj Hg (conj Hb (conj He (conj Hh (conj _ (conj Hfr (conj (Frame_refl g) eq_refl)))))))). nlia.
   - change (fold_left iadd_step (v :: r) (g, e, f)) with (fold_left iadd_step r (iadd_step (g, e, f) v)).
-    generalize (iadd_step_spec g l e f v Ho Hg Hb He Hh).
-    destruct (iadd_step (g, e, f) v) as [[g1 e1] f1]. intros [A1 [A2 [A3 [A4 [A5 A6]]]]].
-    generalize (IH g1 _ e1 f1 A1 A2 A3 A4 A5).
+    generalize (iadd_step_spec g l e f v Ho Hg Hb He Hh Hfr).
+    destruct (iadd_step (g, e, f) v) as [[g1 e1] f1]. intros [A1 [A2 [A3 [A4 [A5 [A6 [A7 A8]]]]]]].
+    generalize (IH g1 _ e1 f1 A1 A2 A3 A4 A5 A7).
     destruct (fold_left iadd_step r (g1, e1, f1)) as [[g2 e2] f2].
-    intros [l' [B1 [B2 [B3 [B4 [B5 [B6 B7]]]]]]]. exists l'.
-    refine (conj B1 (conj B2 (conj B3 (conj B4 (conj B5 (conj _ _)))))); [nlia|].
+    intros [l' [B1 [B2 [B3 [B4 [B5 [B6 [B8 [B9 B7]]]]]]]]]. exists l'.
+    refine (conj B1 (conj B2 (conj B3 (conj B4 (conj B5 (conj _ (conj B8 (conj (Frame_trans _ _ _ A8 B9) _))))))));
+      [nlia|].
     rewrite B7, map_app. simpl. now rewrite <- app_assoc.
 Qed.
 
 Lemma Open_close g l e : Open g l e -> l <> [] -> Rep (g_add (e, REST, NIL) g) l.
 Proof.
-  intros [Hn [Hnil Ho]] Hne. destruct Ho as [[-> _]|[l0 [x [-> Ho]]]]; [congruence|].
-  split; [|split]; auto. intros t Ht.
-  rewrite g_add_In, (Ho t Ht), chainT_app, !in_app_iff. simpl. split; intros Hx; ors.
+  intros [Hn [Hnil [[Hz Hze] Ho]]] Hne. destruct Ho as [[-> _]|[l0 [x [-> Ho]]]]; [congruence|].
+  split; [|split; [|split]]; auto. intros t Ht Hf.
+  rewrite g_add_In, (Ho t Ht Hf), chainT_app, !in_app_iff. simpl. split; intros Hx; ors.
 Qed.
 
 Lemma Rep_open g l0 e x :
   Rep g (l0 ++ [(e, x)]) -> Open (g_remove (Some e, Some REST, None) g) (l0 ++ [(e, x)]) e.
 Proof.
-  intros [Hn [Hnil Hi]]. split; [|split]; auto. right. exists l0, x. split; auto.
+  intros [Hn [Hnil [Hz Hi]]]. split; [|split; [|split]]; auto.
+  { split; auto. apply Hz, cell_mid. }
+  right. exists l0, x. split; auto.
   destruct (mid_parts _ _ _ _ Hn) as [P1 _].
-  intros t Ht. rewrite g_remove_sp_In, (Hi t Ht), chainT_app, !in_app_iff. simpl. split.
+  intros t Ht Hf. rewrite g_remove_sp_In, (Hi t Ht Hf), chainT_app, !in_app_iff. simpl. split.
   - intros [[H|[H|[H|[]]]] Hne]; auto. subst t. exfalso. apply Hne. split; reflexivity.
   - intros [H|[H|[]]].
     + split; auto. intros [E _]. exact (subj_not_in _ _ _ _ H P1 E).
@@ -680,8 +757,10 @@ Qed.
 
 Lemma Rep_open_empty g p : Rep g [] -> Open (g_remove p g) [] HEAD.
 Proof.
-  intros [_ [_ Hi]]. split; [constructor|split; [simpl; tauto|]]. left. split; auto.
-  intros t Ht H. apply g_remove_In in H. destruct H as [H _]. now apply (Hi t Ht) in H.
+  intros [_ [_ [_ Hi]]]. split; [constructor|split; [simpl; tauto|split]].
+  { split; auto. intros ? []. }
+  left. split; auto.
+  intros t Ht Hf H. apply g_remove_In in H. destruct H as [H _]. now apply (Hi t Ht Hf) in H.
 Qed.
 
 Lemma end_chain g e x : NoDup g -> forall l2 l1 fuel,
@@ -720,9 +799,10 @@ Lemma Rep_clear_cell g c x l :
   Rep g ((c, x) :: l) ->
   Rep (g_remove (Some c, Some REST, None) (g_remove (Some c, Some FIRST, None) g)) l.
 Proof.
-  intros [Hn [Hnil Hi]]. simpl in Hn, Hnil. inversion Hn; subst.
-  split; [auto|split; [tauto|]].
-  intros t Ht. rewrite !g_remove_sp_In, (Hi t Ht). simpl. split.
+  intros [Hn [Hnil [Hz Hi]]]. simpl in Hn, Hnil. inversion Hn; subst.
+  split; [auto|split; [tauto|split]].
+  { intros y Hy. apply Hz. now right. }
+  intros t Ht Hf. rewrite !g_remove_sp_In, (Hi t Ht Hf). simpl. split.
   - intros [[[H|[H|H]] N1] N2]; auto.
     + subst t. exfalso. apply N1. split; reflexivity.
     + subst t. exfalso. apply N2. split; reflexivity.
@@ -731,37 +811,43 @@ Qed.
 
 Lemma Rep_nil_remove g p : Rep g [] -> Rep (g_remove p g) [].
 Proof.
-  intros [A [B Hi]]. split; [auto|split; auto]. intros t Ht. rewrite g_remove_In, (Hi t Ht). simpl. tauto.
+  intros [A [B [Hz Hi]]]. split; [auto|split; [auto|split; [auto|]]].
+  intros t Ht Hf. rewrite g_remove_In, (Hi t Ht Hf). simpl. tauto.
 Qed.
 
-Lemma clear_nil g c f : NoDup g -> Rep g [] ->
-  exists g', clear_f (S (S f)) g (Some c) = Some g' /\ NoDup g' /\ Rep g' [].
+Lemma clear_nil g c f : NoDup g -> Rep g [] -> fz c = false ->
+  exists g', clear_f (S (S f)) g (Some c) = Some g' /\ NoDup g' /\ Rep g' [] /\ Frame g g'.
 Proof.
-  intros Hn HR. cbn [clear_f]. rewrite (Rep_value_none _ _ c REST HR) by auto.
-  eexists. split; [reflexivity|]. split.
+  intros Hn HR Hc. cbn [clear_f]. rewrite (Rep_value_none _ _ c REST HR) by auto.
+  eexists. split; [reflexivity|]. split; [|split].
   - now apply g_remove_NoDup, g_remove_NoDup.
   - now apply Rep_nil_remove, Rep_nil_remove.
+  - eapply Frame_trans; apply Frame_remove; exact Hc.
 Qed.
 
 Lemma clear_chain : forall l fuel g, NoDup g -> Rep g l -> (length l + 2 <= fuel)%nat ->
-  exists g', clear_f fuel g (Some (hd_cell l NIL)) = Some g' /\ NoDup g' /\ Rep g' [].
+  exists g', clear_f fuel g (Some (hd_cell l NIL)) = Some g' /\ NoDup g' /\ Rep g' [] /\ Frame g g'.
 Proof.
   induction l as [|[c x] r IH]; intros fuel g Hn HR Hf.
   - destruct fuel as [|[|f]]; try (simpl in Hf; lia). now apply clear_nil.
   - destruct fuel as [|f]; [simpl in Hf; lia|].
     cbn [hd_cell clear_f].
     rewrite (value_only _ _ _ _ Hn (Rep_only_rest _ [] _ _ _ HR)).
-    apply IH.
+    assert (Hc : fz c = false) by (destruct HR as [_ [_ [Hz _]]]; apply Hz; now left).
+    destruct (IH f (g_remove (Some c, Some REST, None) (g_remove (Some c, Some FIRST, None) g)))
+      as [g' [E [A [B C]]]].
     + now apply g_remove_NoDup, g_remove_NoDup.
     + eapply Rep_clear_cell; eauto.
     + simpl in Hf. lia.
+    + exists g'. split; [exact E|split; [exact A|split; [exact B|]]].
+      eapply Frame_trans; [|exact C]. eapply Frame_trans; apply Frame_remove; exact Hc.
 Qed.
 
 Lemma c_clear_Rep g l : NoDup g -> Rep g l -> headed l ->
-  exists g', c_clear g HEAD = (g', RNone) /\ NoDup g' /\ Rep g' [].
+  exists g', c_clear g HEAD = (g', RNone) /\ NoDup g' /\ Rep g' [] /\ Frame g g'.
 Proof.
   intros Hn HR Hh. unfold c_clear.
-  assert (H : exists g', clear_f (fuel_of g) g (Some HEAD) = Some g' /\ NoDup g' /\ Rep g' []).
+  assert (H : exists g', clear_f (fuel_of g) g (Some HEAD) = Some g' /\ NoDup g' /\ Rep g' [] /\ Frame g g').
   { destruct l as [|[c x] r].
     - unfold fuel_of. now apply clear_nil.
     - rewrite <- Hh by discriminate. apply clear_chain; auto.
@@ -774,7 +860,7 @@ Qed.
 
 Definition Inv (s : st) (xs : list term) : Prop :=
   NoDup (gr s) /\ exists l, map snd l = xs /\ Rep (gr s) l /\ headed l
-                            /\ bounded l (fresh s) /\ HEAD < fresh s.
+                            /\ bounded l (fresh s) /\ HEAD < fresh s /\ fresh_ok (fresh s).
 
 Lemma bounded_big l f : bounded l f -> big l.
 Proof. intros H c Hc. apply (H c Hc). Qed.
@@ -851,8 +937,12 @@ Proof.
   - now apply getitem_out with (l := l).
 Qed.
 
+Ltac fzc HR := let Hz := fresh "Hz" in
+  destruct HR as [_ [_ [Hz _]]]; apply Hz; rewrite ?cells_app, ?in_app_iff; simpl; tauto.
+
 Lemma step_set s xs i v : Inv s xs -> kf_op xs (OSet i v) = 0 ->
   Inv {| gr := fst (c_setitem (gr s) HEAD i v); fresh := fresh s |} (fst (lstep xs (OSet i v)))
+  /\ Frame (gr s) (fst (c_setitem (gr s) HEAD i v))
   /\ snd (c_setitem (gr s) HEAD i v) = snd (lstep xs (OSet i v)).
 Proof.
   intros HI Hk. pose proof (c_len_Inv _ _ HI) as Hlen. pose proof HI as HI0.
@@ -863,16 +953,17 @@ Proof.
     unfold c_setitem. rewrite c_norm_nonneg by lia.
     destruct (getitem_at _ _ _ _ _ Hn HR (bounded_big _ _ Hb) Hh) as [E _]. rewrite E.
     rewrite (big_truthy _ c (bounded_big _ _ Hb)) by apply cell_mid.
-    simpl. split; auto. split; [now apply g_set_NoDup|].
+    assert (Hzc : fz c = false) by fzc HR.
+    simpl. split; [|split; [now apply Frame_set|reflexivity]]. split; [now apply g_set_NoDup|].
     exists (l1 ++ (c, v) :: l2). rewrite set_nth_mid.
     split; [auto|split; [now apply Rep_set with (x := x)|split; [|split; auto]]].
     + intros _. rewrite <- Hh by (destruct l1; discriminate). rewrite !hd_cell_app. reflexivity.
     + intros c'. rewrite cells_app. simpl. intros H. apply Hb. now rewrite cells_app.
-  - unfold c_setitem. rewrite Ec. simpl. split; auto.
+  - unfold c_setitem. rewrite Ec. simpl. split; [auto|split; [apply Frame_refl|reflexivity]].
   - destruct (Z.eqb_spec (Z.of_nat k) (Z.of_nat (length l))); [discriminate|].
-    unfold c_setitem. rewrite Ec, (getitem_beyond _ l k Hn HR Hh) by lia. simpl. split; auto.
+    unfold c_setitem. rewrite Ec, (getitem_beyond _ l k Hn HR Hh) by lia. simpl.
+    split; [auto|split; [apply Frame_refl|reflexivity]].
 Qed.
-
 
 Lemma headed_drop l1 p (xp : term) c (x : term) l2 :
   headed (l1 ++ (p, xp) :: (c, x) :: l2) -> headed (l1 ++ (p, xp) :: l2).
@@ -886,10 +977,11 @@ Proof. intros H y Hy. apply H. now apply (proj2 (cells_drop l1 p xp c x l2)). Qe
 (* deletion at a normalised in-range key *)
 Lemma del_at s l1 c x l2 :
   NoDup (gr s) -> Rep (gr s) (l1 ++ (c, x) :: l2) -> headed (l1 ++ (c, x) :: l2) ->
-  bounded (l1 ++ (c, x) :: l2) (fresh s) -> HEAD < fresh s ->
+  bounded (l1 ++ (c, x) :: l2) (fresh s) -> HEAD < fresh s /\ fresh_ok (fresh s) ->
   c_len (gr s) HEAD = RNat (N.of_nat (length (l1 ++ (c, x) :: l2))) ->
   Inv {| gr := fst (c_delitem (gr s) HEAD (Z.of_nat (length l1))); fresh := fresh s |}
       (map snd (l1 ++ l2))
+  /\ Frame (gr s) (fst (c_delitem (gr s) HEAD (Z.of_nat (length l1))))
   /\ snd (c_delitem (gr s) HEAD (Z.of_nat (length l1))) = RNone.
 Proof.
   intros Hn HR Hh Hb Hf Hlen.
@@ -902,7 +994,8 @@ Proof.
     assert (c = HEAD) by (apply Hh; discriminate). subst c.
     destruct l2 as [|[nx xn] l2'].
     + (* the only element *)
-      simpl. split; auto. split; [now apply g_remove_NoDup, g_set_NoDup|].
+      simpl. split; [|split; [eapply Frame_trans; [apply Frame_set|apply Frame_remove]; auto|reflexivity]].
+      split; [now apply g_remove_NoDup, g_set_NoDup|].
       exists []. split; auto. split; [now apply Rep_del_only with (x := x)|].
       split; [intros H; congruence|split; auto]. intros y [].
     + (* the head of a longer list *)
@@ -916,7 +1009,9 @@ Proof.
       change (Z.of_nat (length [(HEAD, x)])) with 1%Z in N1. rewrite N1.
       rewrite (value_only _ _ _ _ Hn (Rep_only_first _ [(HEAD, x)] _ _ _ HR)).
       rewrite (value_only _ _ _ _ Hn (Rep_only_rest _ [(HEAD, x)] _ _ _ HR)).
-      cbn [fst snd app]. split; auto.
+      assert (Hznx : fz nx = false) by fzc HR.
+      cbn [fst snd app].
+      split; [|split; [eapply Frame_trans; [apply Frame_remove|eapply Frame_trans; apply Frame_set]; auto|reflexivity]].
       split; [now apply g_set_NoDup, g_set_NoDup, g_remove_NoDup|].
       exists ((HEAD, xn) :: l2'). split; [reflexivity|].
       split; [now apply Rep_del_head with (x := x)|].
@@ -934,7 +1029,9 @@ Proof.
     + assert (Et : (Z.of_nat (length (l1' ++ [(p, xp)])) =?
                     Z.of_N (N.of_nat (length ((l1' ++ [(p, xp)]) ++ [(c, x)]))) - 1)%Z = true).
       { apply Z.eqb_eq. rewrite !app_length. simpl. lia. }
-      rewrite Et. cbn [fst snd]. split; auto.
+      assert (Hzc : fz c = false) by fzc HR. assert (Hzp : fz p = false) by fzc HR.
+      rewrite Et. cbn [fst snd].
+      split; [|split; [eapply Frame_trans; [apply Frame_set|apply Frame_remove]; auto|reflexivity]].
       split; [now apply g_remove_NoDup, g_set_NoDup|].
       exists (l1' ++ [(p, xp)]). rewrite app_nil_r.
       split; auto. split; [apply (Rep_del_tail _ _ _ _ _ _ [] HR)|].
@@ -957,7 +1054,9 @@ Proof.
       rewrite Ek', N1.
       rewrite (big_truthy _ nx Hb') by apply cell_mid.
       rewrite (big_truthy _ p Hbig) by apply cell_mid.
-      cbn [andb fst snd]. split; auto.
+      assert (Hzc : fz c = false) by fzc HR. assert (Hzp : fz p = false) by fzc HR.
+      cbn [andb fst snd].
+      split; [|split; [eapply Frame_trans; [apply Frame_remove|apply Frame_set]; auto|reflexivity]].
       split; [now apply g_set_NoDup, g_remove_NoDup|].
       exists (l1' ++ (p, xp) :: (nx, xn) :: l2'). rewrite <- app_assoc. simpl app.
       split; auto. split; [apply (Rep_del_middle _ _ _ _ _ _ ((nx, xn) :: l2') HR)|].
@@ -966,6 +1065,7 @@ Qed.
 
 Lemma step_del s xs i : Inv s xs ->
   Inv {| gr := fst (c_delitem (gr s) HEAD i); fresh := fresh s |} (fst (lstep xs (ODel i)))
+  /\ Frame (gr s) (fst (c_delitem (gr s) HEAD i))
   /\ snd (c_delitem (gr s) HEAD i) = snd (lstep xs (ODel i)).
 Proof.
   intros HI. pose proof (c_len_Inv _ _ HI) as Hlen. pose proof HI as HI0.
@@ -974,29 +1074,31 @@ Proof.
   - rewrite (delitem_norm _ _ _ _ Ec) by lia.
     destruct (split_at l k Hlt) as [l1 [c [x [l2 [-> <-]]]]].
     rewrite remove_nth_mid. cbn [fst snd]. now apply (del_at s l1 c x l2).
-  - unfold c_delitem. rewrite Ec. cbn [fst snd]. split; auto.
-  - unfold c_delitem. rewrite Ec. rewrite (getitem_out _ l k Hn HR Hh Hge). cbn [fst snd]. split; auto.
+  - unfold c_delitem. rewrite Ec. cbn [fst snd]. split; [auto|split; [apply Frame_refl|reflexivity]].
+  - unfold c_delitem. rewrite Ec. rewrite (getitem_out _ l k Hn HR Hh Hge). cbn [fst snd].
+    split; [auto|split; [apply Frame_refl|reflexivity]].
 Qed.
 
 (* ---- append, += ---- *)
 Lemma Rep_nil_open g : Rep g [] -> Open g [] HEAD.
 Proof.
-  intros [A [B Hi]]. split; [auto|split; auto]. left. split; auto.
-  intros t Ht H. now apply (Hi t Ht) in H.
+  intros [A [B [Hz Hi]]]. split; [auto|split; [auto|split; [split; auto|]]]. left. split; auto.
+  intros t Ht Hf H. now apply (Hi t Ht Hf) in H.
 Qed.
 
 Lemma Open_has_first g l0 e x : Open g (l0 ++ [(e, x)]) e ->
   g_has (Some e, Some FIRST, None) g = true.
 Proof.
-  intros [_ [_ [[E _]|[l0' [x' [E Ho]]]]]]; [destruct l0; discriminate|].
-  apply g_has_sp. exists x'. apply Ho; [reflexivity|]. apply in_app_iff. right. now left.
+  intros [_ [_ [[_ Hze] [[E _]|[l0' [x' [E Ho]]]]]]]; [destruct l0; discriminate|].
+  apply g_has_sp. exists x'. apply Ho; [reflexivity|exact Hze|]. apply in_app_iff. right. now left.
 Qed.
 
 Lemma close_Inv g' l' e' f' :
-  Open g' l' e' -> NoDup g' -> bounded l' f' -> hd_cell l' e' = HEAD -> HEAD < f' -> l' <> [] ->
+  Open g' l' e' -> NoDup g' -> bounded l' f' -> hd_cell l' e' = HEAD -> HEAD < f' -> fresh_ok f' ->
+  l' <> [] ->
   Inv {| gr := g_add (e', REST, NIL) g'; fresh := f' |} (map snd l').
 Proof.
-  intros Ho Hn Hb Hh Hf Hne. split; [now apply g_add_NoDup|].
+  intros Ho Hn Hb Hh Hf Hfr Hne. split; [now apply g_add_NoDup|].
   exists l'. split; auto. split; [now apply Open_close|].
   split; [|split; auto]. intros _. rewrite <- Hh. now apply hd_cell_ne.
 Qed.
@@ -1006,13 +1108,14 @@ Lemma Inv_end s xs : Inv s xs ->
               /\ Open (g_remove (Some e, Some REST, None) (gr s)) l e
               /\ bounded l (fresh s) /\ NIL < e < fresh s /\ hd_cell l e = HEAD
               /\ (l = [] -> Rep (gr s) [] /\ e = HEAD)
-              /\ (l <> [] -> g_has (Some e, Some FIRST, None) (gr s) = true).
+              /\ (l <> [] -> g_has (Some e, Some FIRST, None) (gr s) = true)
+              /\ fz e = false.
 Proof.
-  intros [Hn [l [<- [HR [Hh [Hb Hf]]]]]].
+  intros [Hn [l [<- [HR [Hh [Hb [Hf Hfr]]]]]]].
   destruct l as [|[e x] l0 _] using rev_ind.
   - exists [], HEAD.
     refine (conj eq_refl (conj (c_end_empty _ HR) (conj eq_refl (conj (Rep_open_empty _ _ HR)
-             (conj Hb (conj _ (conj eq_refl (conj _ _)))))))).
+             (conj Hb (conj _ (conj eq_refl (conj _ (conj _ fz_head))))))))).
     + nlia.
     + auto.
     + congruence.
@@ -1021,75 +1124,91 @@ Proof.
     split; [apply N.eqb_neq; lia|]. split; [now apply Rep_open|].
     split; auto. split; auto. split.
     { rewrite <- Hh by (destruct l0; discriminate). apply hd_cell_ne. destruct l0; discriminate. }
-    split; [intros E; destruct l0; discriminate|]. intros _.
-    apply g_has_sp. exists x. apply (Rep_only_first _ _ _ _ _ HR).
+    split; [intros E; destruct l0; discriminate|]. split.
+    + intros _. apply g_has_sp. exists x. apply (Rep_only_first _ _ _ _ _ HR).
+    + fzc HR.
 Qed.
 
 Lemma Open_nil g e : Open g [] e ->
   Rep g [] /\ g_has (Some e, Some FIRST, None) g = false.
 Proof.
-  intros [A [B [[_ Ho]|[l0 [x [E _]]]]]]; [|destruct l0; discriminate].
+  intros [A [B [[Hz Hze] [[_ Ho]|[l0 [x [E _]]]]]]]; [|destruct l0; discriminate].
   split.
-  - split; [auto|split; auto]. intros t Ht. simpl. split; [intros H; exact (Ho t Ht H)|tauto].
-  - apply not_true_false. rewrite g_has_sp. intros [o H]. exact (Ho (e, FIRST, o) eq_refl H).
+  - split; [auto|split; [auto|split; [auto|]]]. intros t Ht Hf. simpl.
+    split; [intros H; exact (Ho t Ht Hf H)|tauto].
+  - apply not_true_false. rewrite g_has_sp. intros [o H]. exact (Ho (e, FIRST, o) eq_refl Hze H).
 Qed.
 
 Lemma Open_cons_has g l e : Open g l e -> l <> [] -> g_has (Some e, Some FIRST, None) g = true.
 Proof.
-  intros Ho Hne. pose proof Ho as [_ [_ [[E _]|[l0 [x [E _]]]]]]; [congruence|].
+  intros Ho Hne. pose proof Ho as [_ [_ [_ [[E _]|[l0 [x [E _]]]]]]]; [congruence|].
   subst l. now apply Open_has_first with (l0 := l0) (x := x).
 Qed.
 
 Lemma step_iadd s xs items : Inv s xs ->
-  Inv (fst (c_iadd s HEAD items)) (xs ++ items) /\ snd (c_iadd s HEAD items) = RNone.
+  Inv (fst (c_iadd s HEAD items)) (xs ++ items) /\ Frame (gr s) (gr (fst (c_iadd s HEAD items)))
+  /\ snd (c_iadd s HEAD items) = RNone.
 Proof.
-  intros HI. pose proof HI as [Hn [_ [_ [_ [_ [_ Hf]]]]]].
-  destruct (Inv_end _ _ HI) as [l [e [<- [E1 [E2 [Ho [Hb [He [Hh [Hem _]]]]]]]]]].
+  intros HI. pose proof HI as [Hn [_ [_ [_ [_ [_ [Hf Hfr]]]]]]].
+  destruct (Inv_end _ _ HI) as [l [e [<- [E1 [E2 [Ho [Hb [He [Hh [Hem [_ Hze]]]]]]]]]]].
   unfold c_iadd. rewrite E1, E2.
-  generalize (iadd_fold_spec items _ l e (fresh s) Ho (g_remove_NoDup _ _ Hn) Hb He Hh).
+  generalize (iadd_fold_spec items _ l e (fresh s) Ho (g_remove_NoDup _ _ Hn) Hb He Hh Hfr).
   destruct (fold_left iadd_step items _) as [[g1 e1] f1].
-  intros [l' [B1 [B2 [B3 [B4 [B5 [B6 B7]]]]]]]. cbn [fst snd]. split; auto.
+  intros [l' [B1 [B2 [B3 [B4 [B5 [B6 [B8 [B9 B7]]]]]]]]]. cbn [fst snd gr].
+  assert (Fr : Frame (gr s) g1).
+  { eapply Frame_trans; [apply (Frame_remove e (Some REST) None (gr s) Hze)|exact B9]. }
+  assert (Hze1 : fz e1 = false) by (destruct B1 as [_ [_ [[_ H] _]]]; exact H).
   rewrite <- B7. destruct l' as [|a l''].
   - destruct (Open_nil _ _ B1) as [HR Hhas]. rewrite Hhas.
+    split; [|split; [exact Fr|reflexivity]].
     split; auto. exists []. cbn [gr fresh]. split; auto. split; auto.
-    split; [intros H; congruence|]. split; [intros y []|lia].
+    split; [intros H; congruence|]. split; [intros y []|split; [lia|exact B8]].
   - rewrite (Open_cons_has _ _ _ B1) by discriminate.
+    split; [|split; [eapply Frame_trans; [exact Fr|now apply Frame_add]|reflexivity]].
     apply close_Inv; auto; [lia|discriminate].
 Qed.
 
 Lemma step_append s xs v : Inv s xs ->
-  Inv (fst (c_append s HEAD v)) (xs ++ [v]) /\ snd (c_append s HEAD v) = RNone.
+  Inv (fst (c_append s HEAD v)) (xs ++ [v]) /\ Frame (gr s) (gr (fst (c_append s HEAD v)))
+  /\ snd (c_append s HEAD v) = RNone.
 Proof.
-  intros HI. pose proof HI as [Hn [_ [_ [_ [_ [_ Hf]]]]]].
-  destruct (Inv_end _ _ HI) as [l [e [<- [E1 [E2 [Ho [Hb [He [Hh [Hem Hne]]]]]]]]]].
+  intros HI. pose proof HI as [Hn [_ [_ [_ [_ [_ [Hf Hfr]]]]]]].
+  destruct (Inv_end _ _ HI) as [l [e [<- [E1 [E2 [Ho [Hb [He [Hh [Hem [Hne Hze]]]]]]]]]]].
   unfold c_append. rewrite E1, E2.
   destruct l as [|[e' x] l0 _] using rev_ind.
   - destruct (Hem eq_refl) as [HR ->].
     assert (Hhas : g_has (Some HEAD, Some FIRST, None) (gr s) = false).
     { apply not_true_false. rewrite g_has_sp. intros [o H].
       apply (Rep_no_subject _ _ HEAD FIRST o HR); auto. }
-    rewrite Hhas. cbn [fst snd]. split; auto.
-    generalize (iadd_step_spec (gr s) [] HEAD (fresh s) v (Rep_nil_open _ HR) Hn Hb He Hh).
-    unfold iadd_step. rewrite Hhas. intros [A1 [A2 [A3 [A4 [A5 A6]]]]].
-    apply (close_Inv _ _ _ _ A1 A2 A3 A5); [lia|discriminate].
-  - rewrite Hne by (destruct l0; discriminate). cbn [fst snd]. split; auto.
+    rewrite Hhas. cbn [fst snd gr].
+    generalize (iadd_step_spec (gr s) [] HEAD (fresh s) v (Rep_nil_open _ HR) Hn Hb He Hh Hfr).
+    unfold iadd_step. rewrite Hhas. intros [A1 [A2 [A3 [A4 [A5 [A6 [A7 A8]]]]]]].
+    split; [|split; [eapply Frame_trans; [exact A8|now apply Frame_add]|reflexivity]].
+    apply (close_Inv _ _ _ _ A1 A2 A3 A5); [lia|exact A7|discriminate].
+  - rewrite Hne by (destruct l0; discriminate). cbn [fst snd gr].
     assert (e' = e).
-    { destruct Ho as [_ [_ [[E _]|[l0' [x' [E _]]]]]]; [destruct l0; discriminate|].
+    { destruct Ho as [_ [_ [_ [[E _]|[l0' [x' [E _]]]]]]]; [destruct l0; discriminate|].
       apply app_inj_tail in E. destruct E as [_ E]. congruence. }
     subst e'.
-    generalize (iadd_step_spec _ _ e (fresh s) v Ho (g_remove_NoDup _ _ Hn) Hb He Hh).
-    unfold iadd_step. rewrite (Open_has_first _ _ _ _ Ho). intros [A1 [A2 [A3 [A4 [A5 A6]]]]].
-    replace (map snd (l0 ++ [(e, x)]) ++ [v]) with (map snd ((l0 ++ [(e, x)]) ++ [(fresh s, v)]))
-      by (now rewrite (map_app snd (l0 ++ [(e, x)]))).
-    unfold g_set. apply (close_Inv _ _ _ _ A1 A2 A3 A5); [lia|].
-    intros E. apply app_eq_nil in E. destruct E; discriminate.
+    generalize (iadd_step_spec _ _ e (fresh s) v Ho (g_remove_NoDup _ _ Hn) Hb He Hh Hfr).
+    unfold iadd_step. rewrite (Open_has_first _ _ _ _ Ho). intros [A1 [A2 [A3 [A4 [A5 [A6 [A7 A8]]]]]]].
+    assert (Hzf : fz (fresh s) = false) by (apply Hfr; lia).
+    split; [|split; [|reflexivity]].
+    + replace (map snd (l0 ++ [(e, x)]) ++ [v]) with (map snd ((l0 ++ [(e, x)]) ++ [(fresh s, v)]))
+        by (now rewrite (map_app snd (l0 ++ [(e, x)]))).
+      unfold g_set. apply (close_Inv _ _ _ _ A1 A2 A3 A5); [lia|exact A7|].
+      intros E. apply app_eq_nil in E. destruct E; discriminate.
+    + unfold g_set. eapply Frame_trans; [|now apply Frame_add].
+      eapply Frame_trans; [apply (Frame_remove e (Some REST) None (gr s) Hze)|exact A8].
 Qed.
 
 Lemma step_clear s xs : Inv s xs ->
-  Inv {| gr := fst (c_clear (gr s) HEAD); fresh := fresh s |} [] /\ snd (c_clear (gr s) HEAD) = RNone.
+  Inv {| gr := fst (c_clear (gr s) HEAD); fresh := fresh s |} []
+  /\ Frame (gr s) (fst (c_clear (gr s) HEAD)) /\ snd (c_clear (gr s) HEAD) = RNone.
 Proof.
   intros [Hn [l [<- [HR [Hh [Hb Hf]]]]]].
-  destruct (c_clear_Rep _ _ Hn HR Hh) as [g' [E [A B]]]. rewrite E. simpl. split; auto.
+  destruct (c_clear_Rep _ _ Hn HR Hh) as [g' [E [A [B C]]]]. rewrite E. simpl.
+  split; [|split; [exact C|reflexivity]].
   split; auto. exists []. split; auto. split; auto. split; [intros H; congruence|].
   split; auto. intros y [].
 Qed.
@@ -1122,34 +1241,38 @@ Qed.
 (* ------------------------------------------------------------------ *)
 (* The well-formedness checker                                         *)
 
-Lemma walk_Rep g : NoDup g -> forall l l0, Rep g (l0 ++ l) -> l <> [] ->
+Lemma walk_Rep g : forall l l0, Rep g (l0 ++ l) -> l <> [] ->
   walk g (hd_cell l NIL) (map snd l) = Some l.
 Proof.
-  intros Hn. induction l as [|[c x] r IH]; intros l0 HR Hne; [congruence|].
+  induction l as [|[c x] r IH]; intros l0 HR Hne; [congruence|].
   destruct r as [|[c2 x2] r2]; [reflexivity|].
   change (map snd ((c, x) :: (c2, x2) :: r2)) with (x :: map snd ((c2, x2) :: r2)).
   cbn [walk hd_cell]. cbn [map snd].
-  rewrite (value_only _ _ _ _ Hn (Rep_only_rest _ _ _ _ _ HR)). cbn [hd_cell].
+  rewrite (value_only_nd _ _ _ _ (Rep_only_rest _ _ _ _ _ HR)). cbn [hd_cell].
   assert (IH' := IH (l0 ++ [(c, x)])). cbn [hd_cell map snd] in IH'. rewrite IH'; auto.
   - rewrite <- app_assoc. exact HR.
   - discriminate.
 Qed.
 
-Lemma wf_check_Rep g l : NoDup g -> Rep g l -> headed l -> wf_check HEAD (map snd l) g = true.
+(* on a graph without frozen subjects the checker accepts a represented list *)
+Lemma wf_check_Rep g l : (forall t, In t g -> fz (subj t) = false) -> Rep g l -> headed l ->
+  wf_check HEAD (map snd l) g = true.
 Proof.
-  intros Hn HR Hh. destruct l as [|[c x] r].
+  intros Hall HR Hh. destruct l as [|[c x] r].
   - simpl. apply forallb_forall. intros t Ht. destruct (is_fr t) eqn:E; auto.
-    destruct HR as [_ [_ Hi]]. now apply (Hi t E) in Ht.
+    destruct HR as [_ [_ [_ Hi]]]. now apply (Hi t E (Hall t Ht)) in Ht.
   - assert (E : walk g HEAD (map snd ((c, x) :: r)) = Some ((c, x) :: r)).
-    { rewrite <- Hh by discriminate. apply (walk_Rep g Hn _ []); auto. discriminate. }
+    { rewrite <- Hh by discriminate. apply (walk_Rep g _ []); auto. discriminate. }
     unfold wf_check. cbn [map snd] in *. rewrite E.
-    destruct HR as [H1 [H2 Hi]]. unfold cells in H1, H2.
+    destruct HR as [H1 [H2 [Hz Hi]]]. unfold cells in H1, H2.
     rewrite (proj2 (nodupb_spec _ N.eqb_spec _) H1).
     rewrite (proj2 (memb_false _ N.eqb_spec _ _) H2).
     cbn [negb andb]. apply (seteqb_spec _ triple_eqb_spec). intros t.
     rewrite filter_In. split.
-    + intros [A B]. now apply (Hi t B).
-    + intros A. pose proof (In_chainT_fr _ _ _ A) as B. split; auto. now apply (Hi t B).
+    + intros [A B]. now apply (Hi t B (Hall t A)).
+    + intros A. pose proof (In_chainT_fr _ _ _ A) as B.
+      assert (Hft : fz (subj t) = false) by (apply Hz; unfold cells; now apply In_chainT_subj in A).
+      split; auto. now apply (Hi t B Hft).
 Qed.
 
 (* Prop-level reading of the checker *)
@@ -1217,47 +1340,167 @@ Proof.
   destruct (Z.ltb_spec (Z.of_nat k) (Z.of_nat (length xs))); [|lia]. now rewrite Nat2Z.id.
 Qed.
 
-Lemma snap_Inv s xs r : Inv s xs -> snap_ok HEAD xs (snap_of HEAD s r) = true.
+(* c += c: the argument is evaluated first, the list doubles *)
+Lemma step_iadd_self s xs : Inv s xs ->
+  Inv (fst (c_iadd_self s HEAD)) (xs ++ xs) /\ Frame (gr s) (gr (fst (c_iadd_self s HEAD)))
+  /\ snd (c_iadd_self s HEAD) = RNone.
 Proof.
-  intros HI. unfold snap_ok, snap_of. cbn [s_items s_len s_gets s_triples].
-  rewrite (c_iter_Inv _ _ HI), (c_len_Inv _ _ HI), (gets_Inv _ _ HI).
-  rewrite !res_eqb_refl, list_eqb_refl. cbn [andb].
-  destruct HI as [Hn [l [<- [HR [Hh _]]]]]. now apply wf_check_Rep.
+  intros HI. unfold c_iadd_self. rewrite (c_iter_Inv _ _ HI). now apply step_iadd.
 Qed.
-
-Lemma with_g_Inv s g' r xs : Inv {| gr := fst (g', r); fresh := fresh s |} xs ->
-  Inv (fst (with_g s (g', r))) xs.
-Proof. auto. Qed.
 
 Lemma step_ok s xs o : Inv s xs -> kf_op xs o = 0 ->
   Inv (fst (c_step HEAD s o)) (fst (lstep xs o)) /\
+  Frame (gr s) (gr (fst (c_step HEAD s o))) /\
   res_ok o (snd (lstep xs o)) (snd (c_step HEAD s o)) = true.
 Proof.
   intros HI Hk. destruct o; cbn [c_step].
-  - rewrite (step_get _ _ _ HI). split; [exact HI|apply res_ok_refl].
-  - destruct (step_set _ _ i v HI Hk) as [A B].
-    unfold with_g. cbn [fst snd]. rewrite B. split; [exact A|apply res_ok_refl].
-  - destruct (step_del _ _ i HI) as [A B].
-    unfold with_g. cbn [fst snd]. rewrite B. split; [exact A|apply res_ok_refl].
-  - destruct (step_append _ _ v HI) as [A B]. rewrite B. split; [exact A|reflexivity].
-  - destruct (step_iadd _ _ vs HI) as [A B]. rewrite B. split; [exact A|reflexivity].
-  - destruct (step_clear _ _ HI) as [A B].
-    unfold with_g. cbn [fst snd]. rewrite B. split; [exact A|reflexivity].
-  - cbn [fst snd lstep]. rewrite (c_len_Inv _ _ HI). split; [exact HI|apply res_ok_refl].
-  - cbn [fst snd lstep]. rewrite (c_iter_Inv _ _ HI). split; [exact HI|apply res_ok_refl].
-  - split; [exact HI|]. cbn [snd c_step]. apply (step_index _ _ v HI).
-  - cbn [fst snd lstep]. rewrite (step_contains _ _ v HI). split; [exact HI|apply res_ok_refl].
+  - rewrite (step_get _ _ _ HI). split; [exact HI|split; [apply Frame_refl|apply res_ok_refl]].
+  - destruct (step_set _ _ i v HI Hk) as [A [C B]].
+    unfold with_g. cbn [fst snd gr]. rewrite B. split; [exact A|split; [exact C|apply res_ok_refl]].
+  - destruct (step_del _ _ i HI) as [A [C B]].
+    unfold with_g. cbn [fst snd gr]. rewrite B. split; [exact A|split; [exact C|apply res_ok_refl]].
+  - destruct (step_append _ _ v HI) as [A [C B]]. rewrite B. split; [exact A|split; [exact C|reflexivity]].
+  - destruct (step_iadd _ _ vs HI) as [A [C B]]. rewrite B. split; [exact A|split; [exact C|reflexivity]].
+  - destruct (step_clear _ _ HI) as [A [C B]].
+    unfold with_g. cbn [fst snd gr]. rewrite B. split; [exact A|split; [exact C|reflexivity]].
+  - cbn [fst snd lstep]. rewrite (c_len_Inv _ _ HI). split; [exact HI|split; [apply Frame_refl|apply res_ok_refl]].
+  - cbn [fst snd lstep]. rewrite (c_iter_Inv _ _ HI). split; [exact HI|split; [apply Frame_refl|apply res_ok_refl]].
+  - split; [exact HI|split; [apply Frame_refl|]]. cbn [snd c_step]. apply (step_index _ _ v HI).
+  - cbn [fst snd lstep]. rewrite (step_contains _ _ v HI). split; [exact HI|split; [apply Frame_refl|apply res_ok_refl]].
+  - (* Collection(graph, uri, vs) *)
+    destruct vs as [|v0 vs'].
+    + cbn [fst snd lstep]. rewrite app_nil_r. split; [exact HI|split; [apply Frame_refl|reflexivity]].
+    + destruct (step_iadd _ _ (v0 :: vs') HI) as [A [C B]]. cbn [lstep fst snd]. rewrite B.
+      split; [exact A|split; [exact C|reflexivity]].
+  - (* n3() *)
+    cbn [fst snd lstep]. rewrite (c_iter_Inv _ _ HI). split; [exact HI|split; [apply Frame_refl|apply res_ok_refl]].
+  - (* c += c *)
+    destruct (step_iadd_self _ _ HI) as [A [C B]]. cbn [lstep fst snd]. rewrite B.
+    split; [exact A|split; [exact C|reflexivity]].
 Qed.
 
-Lemma run_ok : forall ops s xs, Inv s xs -> kf_run xs ops = 0 ->
-  spec_run HEAD xs ops (c_run HEAD s ops) = true.
+Lemma exc_eqb_true a b : exc_eqb a b = true -> a = b.
+Proof. destruct a, b; simpl; congruence. Qed.
+
+Lemma res_eqb_true a b : res_eqb a b = true -> a = b.
 Proof.
-  induction ops as [|o r IH]; intros s xs HI Hk; [reflexivity|].
+  destruct a, b; simpl; try discriminate; intros H; auto.
+  - apply N.eqb_eq in H. congruence.
+  - apply N.eqb_eq in H. congruence.
+  - apply Bool.eqb_prop in H. congruence.
+  - destruct (list_eqb_spec _ N.eqb_spec l l0); congruence.
+  - apply exc_eqb_true in H. congruence.
+Qed.
+
+Lemma list_res_eqb_true : forall a b, list_eqb res_eqb a b = true -> a = b.
+Proof.
+  induction a as [|x r IH]; intros [|y s]; simpl; try discriminate; auto.
+  rewrite andb_true_iff. intros [A B]. apply res_eqb_true in A. apply IH in B. congruence.
+Qed.
+
+Lemma index_error s xs i : Inv s xs -> norm_index (length xs) i = None ->
+  c_getitem (gr s) HEAD i = RExc IndexError /\
+  c_delitem (gr s) HEAD i = (gr s, RExc IndexError) /\
+  (i <> Z.of_nat (length xs) -> forall v, c_setitem (gr s) HEAD i v = (gr s, RExc IndexError)).
+Proof.
+  intros HI Hnone. pose proof (c_len_Inv _ _ HI) as Hlen.
+  destruct HI as [Hn [l [<- [HR [Hh _]]]]]. rewrite map_length in *.
+  destruct (norm_cases _ _ i Hlen) as [[k [Hlt [E _]]]|[_ [Ec|[k [Hge [-> Ec]]]]]]; [congruence| |].
+  - unfold c_getitem, c_delitem, c_setitem. rewrite Ec. auto.
+  - pose proof (getitem_out _ l k Hn HR Hh Hge) as Hg.
+    split; [exact Hg|]. split.
+    + unfold c_delitem. rewrite Ec, Hg. reflexivity.
+    + intros Hne v. unfold c_setitem. rewrite Ec, (getitem_beyond _ l k Hn HR Hh) by lia. reflexivity.
+Qed.
+
+(* every operation outside the one trigger region (c[len] = v), Prop-level *)
+Lemma refines_step s xs o : Inv s xs -> kf_op xs o = 0 ->
+  let '(s', r) := c_step HEAD s o in
+  let '(xs', e) := lstep xs o in
+  Inv s' xs' /\ Frame (gr s) (gr s') /\ c_iter (gr s') HEAD = RList xs' /\
+  (match o, e with OIndex _, RExc _ => is_exc r = true | _, _ => r = e end).
+Proof.
+  intros HI Hk. destruct (step_ok s xs o HI Hk) as [A [C B]].
+  destruct (c_step HEAD s o) as [s' r]. destruct (lstep xs o) as [xs' e]. cbn [fst snd] in *.
+  split; auto. split; auto. split; [now apply c_iter_Inv|].
+  destruct o; try (now apply res_eqb_true in B).
+  destruct e, r; simpl in B; try discriminate; try reflexivity;
+    try (apply (res_eqb_true (RTerm _) (RTerm _)) in B); try (apply (res_eqb_true (RNat _) (RNat _)) in B);
+    try (apply (res_eqb_true (RBool _) (RBool _)) in B); try (apply (res_eqb_true (RList _) (RList _)) in B);
+    congruence.
+Qed.
+
+End Frame.
+
+(* ------------------------------------------------------------------ *)
+(* Instances: no frozen subject at all, and the [frozen] set of the checker *)
+
+Definition nofz : term -> bool := fun _ => false.
+
+(* a represented list stays represented when the triples with a frozen subject
+   are taken away - and then nothing is frozen any more *)
+Lemma Rep_own fz g l : Rep fz g l -> Rep nofz (own_part fz g) l.
+Proof.
+  intros [H1 [H2 [Hz Hi]]]. split; [auto|split; [auto|split; [intros c _; reflexivity|]]].
+  intros t Ht _. unfold own_part. rewrite filter_In, negb_true_iff. split.
+  - intros [A B]. now apply (Hi t Ht B).
+  - intros A. assert (B : fz (subj t) = false) by (apply Hz; now apply In_chainT_subj in A).
+    split; auto. now apply (Hi t Ht B).
+Qed.
+
+Lemma frozen_nil : frozen NIL = false. Proof. reflexivity. Qed.
+Lemma frozen_head : frozen HEAD = false. Proof. reflexivity. Qed.
+
+(* the run invariant for the frame: the frozen part of the graph is the frozen part of the noise *)
+Definition FrameInv (noise : list triple) (g : graph) : Prop :=
+  forall t, frozen (subj t) = true -> (In t g <-> In t noise).
+
+Lemma frame_check noise g : FrameInv noise g ->
+  tseteqb (frame_part frozen g) (frame_part frozen noise) = true.
+Proof.
+  intros H. apply (seteqb_spec _ triple_eqb_spec). intros t. unfold frame_part.
+  rewrite !filter_In. split; intros [A B]; split; auto; now apply (H t B).
+Qed.
+
+Lemma snap_Inv noise s xs r : Inv frozen s xs -> FrameInv noise (gr s) ->
+  snap_ok noise HEAD xs (snap_of HEAD s r) = true.
+Proof.
+  intros HI HF. unfold snap_ok, snap_of. cbn [s_items s_len s_gets s_triples].
+  rewrite (c_iter_Inv frozen frozen_nil frozen_head _ _ HI), (c_len_Inv frozen frozen_nil frozen_head _ _ HI),
+    (gets_Inv frozen frozen_nil frozen_head _ _ HI).
+  rewrite !res_eqb_refl, list_eqb_refl, (frame_check _ _ HF). cbn [andb]. rewrite andb_true_r.
+  destruct HI as [Hn [l [<- [HR [Hh _]]]]].
+  apply (wf_check_Rep nofz); auto. now apply Rep_own.
+Qed.
+
+Lemma lstep_not_hang xs o : snd (lstep xs o) <> RHang.
+Proof.
+  destruct o; simpl; try discriminate.
+  - destruct (norm_index (length xs) i); discriminate.
+  - destruct (norm_index (length xs) i); discriminate.
+  - destruct (norm_index (length xs) i); discriminate.
+  - destruct (index_of v xs); discriminate.
+Qed.
+
+Lemma res_ok_not_hang o e x : res_ok o e x = true -> e <> RHang -> is_hang x = false.
+Proof.
+  intros H He. destruct x; try reflexivity. exfalso.
+  destruct o, e; simpl in H; try discriminate; congruence.
+Qed.
+
+Lemma run_ok noise : forall ops s xs, Inv frozen s xs -> FrameInv noise (gr s) -> kf_run xs ops = 0 ->
+  spec_run noise HEAD xs ops (c_run HEAD s ops) = true.
+Proof.
+  induction ops as [|o r IH]; intros s xs HI HF Hk; [reflexivity|].
   cbn [kf_run] in Hk. destruct (N.eqb_spec (kf_op xs o) 0) as [E|E]; [|congruence].
-  destruct (step_ok s xs o HI E) as [A B].
+  destruct (step_ok frozen frozen_nil frozen_head s xs o HI E) as [A [C B]].
+  pose proof (lstep_not_hang xs o) as Hnh.
   cbn [c_run spec_run]. destruct (c_step HEAD s o) as [s' x]. destruct (lstep xs o) as [xs' e].
-  cbn [fst snd] in *. change (s_res (snap_of HEAD s' x)) with x.
-  rewrite B, (snap_Inv _ _ x A). cbn [andb]. apply IH; auto.
+  cbn [fst snd] in *. rewrite (res_ok_not_hang _ _ _ B Hnh).
+  change (s_res (snap_of HEAD s' x)) with x.
+  assert (HF' : FrameInv noise (gr s')).
+  { intros t Ht. rewrite (C t Ht). apply (HF t Ht). }
+  rewrite B, (snap_Inv noise _ _ x A HF'). cbn [andb]. apply IH; auto.
 Qed.
 
 (* ------------------------------------------------------------------ *)
@@ -1307,91 +1550,94 @@ Proof.
   destruct (IH xs) as [A B]; [lia|]. now rewrite A, B.
 Qed.
 
-Lemma init_Inv c : wfb c = true -> Inv (init_st c) (c_init c).
+Lemma frozen_cell c : NIL < c -> (c = HEAD \/ CELL0 <= c) -> frozen c = false.
+Proof.
+  intros H [->|H2]; [reflexivity|]. unfold frozen.
+  rewrite (proj2 (N.ltb_ge c CELL0) H2). now rewrite andb_false_r.
+Qed.
+
+Lemma init_cells_shape n c : In c (init_cells n) -> c = HEAD \/ CELL0 <= c.
+Proof.
+  destruct n as [|n]; [simpl; tauto|]. cbn [init_cells In]. intros [<-|H]; [now left|].
+  apply cells_from_In in H. right. lia.
+Qed.
+
+Lemma init_Inv c : wfb c = true ->
+  Inv frozen (init_st c) (c_init c) /\ FrameInv (c_noise c) (gr (init_st c)).
 Proof.
   intros Hw. unfold init_st, init_graph.
   set (xs := c_init c). set (l := combine (init_cells (length xs)) xs).
   destruct (combine_maps (init_cells (length xs)) xs (init_cells_length _)) as [Ec Es].
-  split; [apply fold_add_NoDup, fold_add_NoDup; constructor|].
-  exists l. cbn [gr fresh]. split; [exact Es|].
-  split; [|split; [|split]].
-  - split; [|split].
-    + unfold cells, l. rewrite Ec. apply init_cells_NoDup.
-    + unfold cells, l. rewrite Ec. intros H. apply init_cells_In in H. lia.
-    + intros t Ht. rewrite !fold_add_In. simpl. split; [|auto].
-      intros [H|[H|[]]]; auto. unfold wfb in Hw. rewrite forallb_forall in Hw.
-      apply Hw in H. rewrite Ht in H. discriminate.
-  - intros Hne. unfold l in *. destruct xs as [|x r]; [exfalso; apply Hne|]; reflexivity.
-  - intros y Hy. unfold cells, l in Hy. rewrite Ec in Hy. now apply init_cells_In.
-  - unfold HEAD, CELL0. lia.
+  assert (Hcz : forall y, In y (cells l) -> frozen y = false).
+  { intros y Hy. unfold cells, l in Hy. rewrite Ec in Hy.
+    apply frozen_cell; [apply init_cells_In in Hy; lia|now apply init_cells_shape in Hy]. }
+  unfold wfb in Hw. rewrite forallb_forall in Hw.
+  split.
+  - split; [apply fold_add_NoDup, fold_add_NoDup; constructor|].
+    exists l. cbn [gr fresh]. split; [exact Es|].
+    split; [|split; [|split; [|split]]].
+    + split; [|split; [|split]].
+      * unfold cells, l. rewrite Ec. apply init_cells_NoDup.
+      * unfold cells, l. rewrite Ec. intros H. apply init_cells_In in H. lia.
+      * exact Hcz.
+      * intros t Ht Hf. rewrite !fold_add_In. simpl. split; [|auto].
+        intros [H|[H|[]]]; auto. apply Hw in H. rewrite Ht, Hf in H. discriminate.
+    + intros Hne. unfold l in *. destruct xs as [|x r]; [exfalso; apply Hne|]; reflexivity.
+    + intros y Hy. unfold cells, l in Hy. rewrite Ec in Hy. now apply init_cells_In.
+    + unfold HEAD, CELL0. lia.
+    + intros y Hy. apply frozen_cell; unfold NIL, CELL0 in *; [lia|right; lia].
+  - intros t Ht. cbn [gr]. rewrite !fold_add_In. simpl. split; [|auto].
+    intros [H|[H|[]]]; auto. apply In_chainT_subj in H. apply Hcz in H. congruence.
 Qed.
 
 Lemma spec_ok_model c : wfb c = true -> kf c = 0 -> spec_ok c (model_obs c) = true.
-Proof. intros Hw Hk. apply run_ok; [now apply init_Inv|exact Hk]. Qed.
+Proof.
+  intros Hw Hk. destruct (init_Inv c Hw) as [A B]. now apply run_ok.
+Qed.
 
 (* ------------------------------------------------------------------ *)
 (* Readings and corollaries                                            *)
 
-Lemma exc_eqb_true a b : exc_eqb a b = true -> a = b.
-Proof. destruct a, b; simpl; congruence. Qed.
-
-Lemma res_eqb_true a b : res_eqb a b = true -> a = b.
-Proof.
-  destruct a, b; simpl; try discriminate; intros H; auto.
-  - apply N.eqb_eq in H. congruence.
-  - apply N.eqb_eq in H. congruence.
-  - apply Bool.eqb_prop in H. congruence.
-  - destruct (list_eqb_spec _ N.eqb_spec l l0); congruence.
-  - apply exc_eqb_true in H. congruence.
-Qed.
-
-Lemma list_res_eqb_true : forall a b, list_eqb res_eqb a b = true -> a = b.
-Proof.
-  induction a as [|x r IH]; intros [|y s]; simpl; try discriminate; auto.
-  rewrite andb_true_iff. intros [A B]. apply res_eqb_true in A. apply IH in B. congruence.
-Qed.
-
-Lemma snap_ok_reading head xs sn : snap_ok head xs sn = true ->
+Lemma snap_ok_reading noise head xs sn : snap_ok noise head xs sn = true ->
   s_items sn = RList xs /\ s_len sn = RNat (N.of_nat (length xs)) /\
-  s_gets sn = map RTerm xs /\ WF (s_triples sn) head xs.
+  s_gets sn = map RTerm xs /\ WF (own_part frozen (s_triples sn)) head xs /\
+  (forall t, frozen (subj t) = true -> (In t (s_triples sn) <-> In t noise)).
 Proof.
-  unfold snap_ok. rewrite !andb_true_iff. intros [[[A B] C] D].
-  apply res_eqb_true in A, B. apply list_res_eqb_true in C. apply wf_check_sound in D. auto.
+  unfold snap_ok. rewrite !andb_true_iff. intros [[[[A B] C] D] E].
+  apply res_eqb_true in A, B. apply list_res_eqb_true in C. apply wf_check_sound in D.
+  split; [auto|split; [auto|split; [auto|split; [auto|]]]].
+  apply (seteqb_spec _ triple_eqb_spec) in E. intros t Hft. split.
+  - intros Hin. assert (Hx : In t (frame_part frozen (s_triples sn))) by (apply filter_In; auto).
+    apply E in Hx. apply filter_In in Hx. tauto.
+  - intros Hin. assert (Hx : In t (frame_part frozen noise)) by (apply filter_In; auto).
+    apply E in Hx. apply filter_In in Hx. tauto.
 Qed.
 
-Lemma Inv_WF s xs : Inv s xs -> WF (gr s) HEAD xs.
+Lemma Inv_WF fz s xs : Inv fz s xs -> WF (own_part fz (gr s)) HEAD xs.
 Proof.
-  intros [Hn [l [<- [HR [Hh _]]]]]. apply wf_check_sound. now apply wf_check_Rep.
+  intros [Hn [l [<- [HR [Hh _]]]]]. apply wf_check_sound.
+  apply (wf_check_Rep nofz); auto. now apply Rep_own.
 Qed.
 
-Lemma index_error s xs i : Inv s xs -> norm_index (length xs) i = None ->
-  c_getitem (gr s) HEAD i = RExc IndexError /\
-  c_delitem (gr s) HEAD i = (gr s, RExc IndexError) /\
-  (i <> Z.of_nat (length xs) -> forall v, c_setitem (gr s) HEAD i v = (gr s, RExc IndexError)).
+(* the checker is complete: a Prop-level well-formed chain is accepted, whatever
+   the order and multiplicity of the triples in T - wf_check decides WF *)
+Lemma wf_check_complete head xs T : WF T head xs -> wf_check head xs T = true.
 Proof.
-  intros HI Hnone. pose proof (c_len_Inv _ _ HI) as Hlen.
-  destruct HI as [Hn [l [<- [HR [Hh _]]]]]. rewrite map_length in *.
-  destruct (norm_cases _ _ i Hlen) as [[k [Hlt [E _]]]|[_ [Ec|[k [Hge [-> Ec]]]]]]; [congruence| |].
-  - unfold c_getitem, c_delitem, c_setitem. rewrite Ec. auto.
-  - pose proof (getitem_out _ l k Hn HR Hh Hge) as Hg.
-    split; [exact Hg|]. split.
-    + unfold c_delitem. rewrite Ec, Hg. reflexivity.
-    + intros Hne v. unfold c_setitem. rewrite Ec, (getitem_beyond _ l k Hn HR Hh) by lia. reflexivity.
-Qed.
-
-(* every operation outside the one trigger region (c[len] = v), Prop-level *)
-Lemma refines_step s xs o : Inv s xs -> kf_op xs o = 0 ->
-  let '(s', r) := c_step HEAD s o in
-  let '(xs', e) := lstep xs o in
-  Inv s' xs' /\ WF (gr s') HEAD xs' /\ c_iter (gr s') HEAD = RList xs' /\
-  (match o, e with OIndex _, RExc _ => is_exc r = true | _, _ => r = e end).
-Proof.
-  intros HI Hk. destruct (step_ok s xs o HI Hk) as [A B].
-  destruct (c_step HEAD s o) as [s' r]. destruct (lstep xs o) as [xs' e]. cbn [fst snd] in *.
-  split; auto. split; [now apply Inv_WF|]. split; [now apply c_iter_Inv|].
-  destruct o; try (now apply res_eqb_true in B).
-  destruct e, r; simpl in B; try discriminate; try reflexivity;
-    try (apply (res_eqb_true (RTerm _) (RTerm _)) in B); try (apply (res_eqb_true (RNat _) (RNat _)) in B);
-    try (apply (res_eqb_true (RBool _) (RBool _)) in B); try (apply (res_eqb_true (RList _) (RList _)) in B);
-    congruence.
+  unfold WF. destruct xs as [|x r].
+  - intros H. simpl. apply forallb_forall. intros t Ht. now rewrite (H t Ht).
+  - intros [cs [Hl [Hn [Hnil [Hh Hs]]]]].
+    destruct (combine_maps cs (x :: r) Hl) as [Ec Es].
+    set (l := combine cs (x :: r)) in *.
+    assert (Hne : l <> []) by (destruct cs; [discriminate|unfold l; simpl; discriminate]).
+    assert (HR : Rep nofz T ([] ++ l)).
+    { simpl. split; [unfold cells; now rewrite Ec|split; [unfold cells; now rewrite Ec|split]].
+      - intros c _. reflexivity.
+      - intros t Ht _. rewrite <- (Hs t), filter_In. tauto. }
+    assert (Hw : walk T head (x :: r) = Some l).
+    { rewrite <- Es. replace head with (hd_cell l NIL).
+      - apply (walk_Rep nofz T l [] HR Hne).
+      - rewrite <- Hh. unfold l. destruct cs as [|c cs']; [discriminate|reflexivity]. }
+    unfold wf_check. rewrite Hw. fold l. rewrite Ec.
+    rewrite (proj2 (nodupb_spec _ N.eqb_spec _) Hn), (proj2 (memb_false _ N.eqb_spec _ _) Hnil).
+    cbn [negb andb]. now apply (seteqb_spec _ triple_eqb_spec).
 Qed.
